@@ -21,6 +21,9 @@ type C13Case struct {
 	//   symlink-approved / symlink-tampered the path is a symlink to the named file
 	//   relative-approved / relative-tampered  a relative path ("./bin", with Cmd.Dir unset, resolved against the host's cwd)
 	PathKind string `json:"pathKind,omitempty"`
+	// ViaRunner: the client is configured with a RunnerFunc (no Cmd) and this SecureConfig. There is no
+	// file go-plugin could hash: nothing may be launched (the RunnerFunc must not even be invoked)
+	ViaRunner bool `json:"viaRunner,omitempty"`
 }
 
 type C13StepObs struct {
@@ -40,6 +43,7 @@ type C13Obs struct {
 	ProcessSet   bool         `json:"processSet"` // exec.Cmd.Process != nil after Start
 	FileSum      []byte       `json:"fileSum"`    // digest the host computed (for cross-check only)
 	Steps        []C13StepObs `json:"steps,omitempty"`
+	RunnerCalls  int          `json:"runnerCalls,omitempty"`
 }
 
 // PRBytes is a deterministic pseudo-random byte stream.
